@@ -725,7 +725,9 @@ func TestWorker(t *testing.T) {
 		if out.OverBudget() {
 			return
 		}
-		out.Progress(c.Name())
+		if !out.Begin(c.Name()) {
+			continue
+		}
 		out.Cells++
 		_, v := explore(c)
 		if e.HarnessErr {
